@@ -20,8 +20,8 @@ FUNCTIONS = [
     "nextflow/scripts/batchie.py: get_screen_from_job_output, get_test_screen_from_job_output, validate_job_dir_and_return_meta, get_theta_and_dist_chunks, get_selected_plates, dir_sort_key",
 ]
 BOUNDS = {
-    "quick": "retrospective mode: 3 plates (batch size symbolic in 1..2) and 4 plates (batch 1..3); prospective mode: batch size 1..3; one interruption at any numbered mutation point of the whole run (each mkdir of each path component, each entry removed by rmtree, inside a pipeline run with any dependency-closed subset of its outputs published, just after a step); every pair of interruptions (second one during the recovery) for 3 plates / batch <= 2",
-    "thorough": "additionally retrospective 5 plates with batch 1..4, two interruptions for 4 plates / batch <= 3, prospective batch up to 4 and two interruptions with batch <= 3",
+    "quick": "retrospective mode: 3 plates (batch size symbolic in 1..2) and 4 plates (batch 1..3); prospective mode: batch size 1..3; one interruption at any numbered mutation point of the whole run (each mkdir of each path component, each entry removed by rmtree, inside a pipeline run with any dependency-closed subset of its outputs published, just after a step); every pair of interruptions (second one during the recovery) for 3 plates / batch <= 2; a 12-plate batch-1 retrospective run and the eleventh prospective round (iter_10 next to iter_2..iter_9)",
+    "thorough": "additionally retrospective 5 plates with batch 1..4, two interruptions for 4 plates / batch <= 3, prospective batch up to 5 and two interruptions with batch <= 3; retrospective 6 plates (batch 1..5), 5 plates with two interruptions, 13 plates with batch 1..3; prospective rounds after 1, 3, 10 and 11 earlier uninterrupted rounds",
 }
 ASSUMPTIONS = [
     "filesystem model: a directory tree with atomic single-entry mkdir / unlink / file publish; os.makedirs and shutil.rmtree are sequences of such steps",
@@ -46,8 +46,15 @@ def configs(tier, seed):
            dict(name="retrospective P=12 batch=1 (more than ten iterations)", h="resume", mode="retrospective", P=12, bmax=1, crashes=1),
            dict(name="retrospective P=3 two interruptions", h="resume", mode="retrospective", P=3, bmax=2, crashes=2),
            dict(name="prospective two interruptions", h="resume", mode="prospective", P=3, bmax=2, crashes=2)]
+    out.append(dict(name="prospective, eleventh round (ten earlier rounds)", h="resume", mode="prospective", P=3, bmax=1, crashes=1, pre=10))
     if not q:
-        out += [dict(name="retrospective P=5", h="resume", mode="retrospective", P=5, bmax=4, crashes=1),
+        out += [dict(name="retrospective P=6", h="resume", mode="retrospective", P=6, bmax=5, crashes=1),
+                dict(name="retrospective P=5 two interruptions", h="resume", mode="retrospective", P=5, bmax=2, crashes=2),
+                dict(name="retrospective P=13 batch<=3 (more than ten iterations)", h="resume", mode="retrospective", P=13, bmax=3, crashes=1),
+                dict(name="prospective, rounds 2-4 and 12", h="resume", mode="prospective", P=3, bmax=2, crashes=1, pre=1),
+                dict(name="prospective, fourth round two interruptions", h="resume", mode="prospective", P=3, bmax=2, crashes=2, pre=3),
+                dict(name="prospective, twelfth round two interruptions", h="resume", mode="prospective", P=3, bmax=2, crashes=2, pre=11),
+                dict(name="prospective b<=5", h="resume", mode="prospective", P=3, bmax=5, crashes=1),dict(name="retrospective P=5", h="resume", mode="retrospective", P=5, bmax=4, crashes=1),
                 dict(name="retrospective P=4 two interruptions", h="resume", mode="retrospective", P=4, bmax=3, crashes=2),
                 dict(name="prospective b<=4", h="resume", mode="prospective", P=3, bmax=4, crashes=1),
                 dict(name="prospective b<=3 two interruptions", h="resume", mode="prospective", P=3, bmax=3, crashes=2)]
@@ -241,6 +248,10 @@ def h_resume(ctx, cfg):
         cleanup.append(fs0)
         p0 = Pipeline(ctx, fs0, P, mode, lambda name: True)
         m0 = _load_script(ctx, fs0, p0)
+        # earlier, uninterrupted invocations (prospective mode: one round per invocation) - not subject to interruption
+        for _ in range(cfg.get("pre", 0)):
+            _invoke(m0, mode, batch)
+        fs0.ticks = 0
         _invoke(m0, mode, batch)
         total = fs0.ticks
         ref_steps = [_steps(fs0.tree())]
@@ -268,6 +279,12 @@ def h_resume(ctx, cfg):
         pl = Pipeline(ctx, fs, P, mode, lambda name: ctx.is_true(ctx.bool("pub_" + name)))
         mod = _load_script(ctx, fs, pl)
         log = []
+        if cfg.get("pre", 0):
+            saved_armed, fs.armed = fs.armed, False
+            for _ in range(cfg["pre"]):
+                _invoke(mod, mode, batch)
+            fs.armed = saved_armed
+            fs.ticks = 0
         try:
             _invoke(mod, mode, batch)
             ctx.assume(False)  # the interruption point lies beyond this execution
